@@ -185,6 +185,22 @@ fn boundary_words(len: usize) -> Vec<[u8; 32]> {
     v
 }
 
+/// every word whose four 64-bit limbs each are 0, 1, 2^63 or 2^64-1: wide-integer checks written
+/// limb by limb (or half by half) go wrong on particular combinations of limbs, not on single bits
+fn limb_words() -> Vec<[u8; 32]> {
+    let vals: [u64; 4] = [0, 1, 1 << 63, u64::MAX];
+    let mut v = vec![];
+    for code in 0..256usize {
+        let mut w = [0u8; 32];
+        for limb in 0..4 {
+            let x = vals[(code >> (2 * limb)) & 3];
+            w[limb * 8..limb * 8 + 8].copy_from_slice(&x.to_be_bytes());
+        }
+        v.push(w);
+    }
+    v
+}
+
 #[derive(Default)]
 struct Stats {
     evals: AtomicU64,
@@ -213,7 +229,12 @@ fn check_decode(env: &Env, input: &[u8], must_accept: Option<&RHub>, st: &Stats)
         }
     }));
     match r {
-        Err(_) => Err(Fail { sig: "decode.panic".into(), detail: "abi_decode (or re-encoding its result) panicked".into(), input: input.to_vec() }),
+        Err(_) => {
+            // one input class is a recorded finding (known_findings.txt): a length word within 2^16
+            // of 2^64, on which the pinned decoder's unchecked `offset + len` overflows
+            let sig = if has_length_word_near_2_64(input) { "decode.panic:length-word-near-2^64" } else { "decode.panic" };
+            Err(Fail { sig: sig.into(), detail: "abi_decode (or re-encoding its result) panicked".into(), input: input.to_vec() })
+        }
         Ok(None) => {
             st.rejected.fetch_add(1, Ordering::Relaxed);
             if must_accept.is_some() {
@@ -239,6 +260,11 @@ fn check_decode(env: &Env, input: &[u8], must_accept: Option<&RHub>, st: &Stats)
     }
 }
 
+/// some 32-byte aligned word fits 64 bits and lies within 2^16 of 2^64
+fn has_length_word_near_2_64(input: &[u8]) -> bool {
+    input.chunks_exact(32).any(|w| w[..24].iter().all(|b| *b == 0) && u64::from_be_bytes(w[24..32].try_into().unwrap()) >= u64::MAX - 0xffff)
+}
+
 fn check_encode(env: &Env, h: &RHub, st: &Stats) -> Result<(), Fail> {
     st.evals.fetch_add(1, Ordering::Relaxed);
     let want = abi_hub(h);
@@ -255,7 +281,19 @@ fn check_encode(env: &Env, h: &RHub, st: &Stats) -> Result<(), Fail> {
     }
 }
 
+/// recorded findings met during the run: signature -> (hits, first input)
+static KNOWN_HITS: Mutex<Vec<(String, u64, Vec<u8>)>> = Mutex::new(Vec::new());
+
+fn note_known(f: &Fail) {
+    let mut g = KNOWN_HITS.lock().unwrap();
+    match g.iter_mut().find(|(s, _, _)| *s == f.sig) {
+        Some(e) => e.1 += 1,
+        None => g.push((f.sig.clone(), 1, f.input.clone())),
+    }
+}
+
 fn run_parallel<T: Sync>(items: &[T], threads: usize, f: impl Fn(&Env, &T) -> Result<(), Fail> + Sync, first_fail: &Mutex<Option<Fail>>) {
+    let known = report::Known::load();
     let next = AtomicU64::new(0);
     let chunk = 256usize;
     std::thread::scope(|s| {
@@ -268,6 +306,10 @@ fn run_parallel<T: Sync>(items: &[T], threads: usize, f: impl Fn(&Env, &T) -> Re
                 let env = new_env();
                 for it in &items[start..(start + chunk).min(items.len())] {
                     if let Err(fl) = f(&env, it) {
+                        if known.is_known("C10", &fl.sig) {
+                            note_known(&fl);
+                            continue;
+                        }
                         let mut g = first_fail.lock().unwrap();
                         if g.is_none() { *g = Some(fl); }
                         return;
@@ -289,7 +331,15 @@ fn main() {
         let env = new_env();
         match check_decode(&env, &input, None, &st) {
             Ok(()) => { println!("no mismatch on replay"); std::process::exit(0) }
-            Err(f) => { println!("mismatch: {} :: {}", f.sig, f.detail); println!("VIOLATION property=C10 replay={}", args[2]); std::process::exit(1) }
+            Err(f) => {
+                println!("mismatch: {} :: {}", f.sig, f.detail);
+                if report::Known::load().is_known("C10", &f.sig) {
+                    println!("KNOWN-FINDING: property=C10 [{}]", f.sig);
+                    std::process::exit(0)
+                }
+                println!("VIOLATION property=C10 replay={}", args[2]);
+                std::process::exit(1)
+            }
         }
     }
     let thorough = mode == "thorough";
@@ -318,8 +368,9 @@ fn main() {
         for i in 0..base.len() * 8 { let mut m = base.clone(); m[i / 8] ^= 1 << (i % 8); muts.push(m); }
         let words = base.len() / 32;
         let bw = boundary_words(base.len());
+        let lw = limb_words();
         for wi in 0..words {
-            for b in &bw {
+            for b in bw.iter().chain(lw.iter()) {
                 let mut m = base.clone();
                 m[wi * 32..wi * 32 + 32].copy_from_slice(b);
                 if m != *base { muts.push(m); }
@@ -377,6 +428,10 @@ fn main() {
     st.distinct.fetch_add(n_mut, Ordering::Relaxed);
 
     let fail = first_fail.lock().unwrap().take();
+    let known = report::Known::load();
+    for (sig, n, input) in KNOWN_HITS.lock().unwrap().iter() {
+        println!("KNOWN-FINDING: property=C10 {} [{}] (hit {} times; e.g. input 0x{})", known.describe("C10", sig), sig, n, axmc::explore::truncate(&hex(input), 200));
+    }
     let mut exit = 0;
     let mut violations = 0;
     let mut replay = String::new();
@@ -411,7 +466,7 @@ fn main() {
     let cov = serde_json::json!({
         "evaluations": st.evals.load(Ordering::Relaxed),
         "distinct_nontrivial": st.distinct.load(Ordering::Relaxed),
-        "rule": "encode side: the full product grid of hub messages (both wrappers x both inner kinds; chain names of 0/1/31/32/33 bytes, multi-byte, mixed case with surrounding blanks; ids 00.., ff.., pattern; address/data/minter lengths 0,1,31,32,33,64,65; amounts 0,1,1000,2^64,2^127-1; names/symbols of 1 byte, 2- and 4-byte UTF-8 scalars, 31/32/33 bytes, a single blank, mixed case with surrounding blanks; decimals 0,1,18,255): abi_encode must equal the independent head/tail encoder byte for byte and decode back to the same message. Decode side: for a covering subset of 64 (quick) / 256 (thorough) encodings every truncation, every single-bit flip, every 32-byte word replaced by each of ~30 boundary words, pairs of word replacements, 8 kinds of trailing bytes, 4 kinds of trailing bytes on the inner message inside a canonical wrapper; all byte strings of length <= 2; all one-hot words; short type-tag-only inputs. Oracle: no panic, and Ok(m) implies both re-encoding m and the independent encoding of m reproduce the input exactly. A case is distinct when its byte string (or message) differs; all are non-trivial (each is a decode or encode compared with the reference)",
+        "rule": "encode side: the full product grid of hub messages (both wrappers x both inner kinds; chain names of 0/1/31/32/33 bytes, multi-byte, mixed case with surrounding blanks; ids 00.., ff.., pattern; address/data/minter lengths 0,1,31,32,33,64,65; amounts 0,1,1000,2^64,2^127-1; names/symbols of 1 byte, 2- and 4-byte UTF-8 scalars, 31/32/33 bytes, a single blank, mixed case with surrounding blanks; decimals 0,1,18,255): abi_encode must equal the independent head/tail encoder byte for byte and decode back to the same message. Decode side: for a covering subset of 64 (quick) / 256 (thorough) encodings every truncation, every single-bit flip, every 32-byte word replaced by each of ~30 boundary words and by each of the 256 words whose four 64-bit limbs are 0 / 1 / 2^63 / 2^64-1, pairs of word replacements, 8 kinds of trailing bytes, 4 kinds of trailing bytes on the inner message inside a canonical wrapper; all byte strings of length <= 2; all one-hot words; short type-tag-only inputs. Oracle: no panic, and Ok(m) implies both re-encoding m and the independent encoding of m reproduce the input exactly. A case is distinct when its byte string (or message) differs; all are non-trivial (each is a decode or encode compared with the reference)",
         "samples": samples,
         "exhaustive": fail.is_none(),
         "grid_messages": n_grid,
@@ -419,6 +474,7 @@ fn main() {
         "decode_accepted": st.accepted.load(Ordering::Relaxed),
         "decode_rejected": st.rejected.load(Ordering::Relaxed),
         "mutation_bases": bases.len(),
+        "known_findings_hit": KNOWN_HITS.lock().unwrap().iter().map(|(s, n, _)| serde_json::json!({"signature": s, "hits": n})).collect::<Vec<_>>(),
         "replay": replay,
     });
     report::write_evidence("C10", tier, std::env::var("VERIF_SEED").ok().and_then(|s| s.parse().ok()).unwrap_or(0), "exploration", cov,
